@@ -118,17 +118,20 @@ theorem not_sel_rem (p : Part) : isSel p → isRem p → False := by cases p <;>
     · simp [hk]
 
 
-/-- real energies; the energies of every eliminated pair differ -/
-structure Energies (K : Type*) [Field K] [StarRing K] where
+/-- (possibly complex) energies; the energies of every eliminated pair differ -/
+structure EnergiesNH (K : Type*) [Field K] [StarRing K] where
   E : ι → K
-  E_real : ∀ i, star (E i) = E i
   gapE : ∀ i j, isRem (μ.cls i j) → E i ≠ E j
+
+/-- real energies (Hermitian case) -/
+structure Energies (K : Type*) [Field K] [StarRing K] extends EnergiesNH μ K where
+  E_real : ∀ i, star (E i) = E i
 
 variable {μ}
 
 theorem not_rem_diag (i : ι) : ¬ isRem (μ.cls i i) := fun h => not_sel_rem _ (μ.cls_diag i) h
 
-theorem diag_entry (en : Energies μ K) (p : Part) (hp : isRem p) (i j : ι) :
+theorem diag_entry (en : EnergiesNH μ K) (p : Part) (hp : isRem p) (i j : ι) :
     (if μ.cls i j = p then (Matrix.diagonal en.E : Matrix ι ι K) i j else 0) = 0 := by
   by_cases h : μ.cls i j = p
   · rw [if_pos h]
@@ -138,16 +141,10 @@ theorem diag_entry (en : Energies μ K) (p : Part) (hp : isRem p) (i j : ι) :
   · rw [if_neg h]
 
 /-- H0 = diag(E) and the entry-wise solver of `solve_sylvester_diagonal` -/
-noncomputable def coeffUnperturbed (en : Energies μ K) :
-    @CoeffUnperturbed (Matrix ι ι K) _ _ _ _ (coeffBlocks μ) :=
+noncomputable def coeffUnperturbedNH (en : EnergiesNH μ K) :
+    @CoeffUnperturbedNH (Matrix ι ι K) _ _ _ _ (coeffBlocks μ) :=
   letI := coeffBlocks (K := K) μ
   { H0 := Matrix.diagonal en.E
-    H0_star := by
-      ext i j
-      rw [Matrix.star_apply]
-      by_cases h : i = j
-      · subst h; rw [Matrix.diagonal_apply_eq, en.E_real]
-      · rw [Matrix.diagonal_apply_ne _ h, Matrix.diagonal_apply_ne _ (Ne.symm h), star_zero]
     H0_up := by ext i j; exact diag_entry en up (Or.inl rfl) i j
     H0_lo := by ext i j; exact diag_entry en lo (Or.inr (Or.inl rfl)) i j
     H0_ed := by ext i j; exact diag_entry en ed (Or.inr (Or.inr rfl)) i j
@@ -197,7 +194,24 @@ noncomputable def coeffUnperturbed (en : Energies μ K) :
         rw [if_pos h, if_pos h, Matrix.sub_apply, Matrix.diagonal_mul, Matrix.mul_diagonal]
         simp only [Matrix.of_apply, if_pos hr]
         field_simp
-      · rw [if_neg h, if_neg h]
+      · rw [if_neg h, if_neg h] }
+
+theorem Sy_apply (en : EnergiesNH μ K) (z : Matrix ι ι K) (i j : ι) :
+    (@CoeffUnperturbedNH.Sy (Matrix ι ι K) _ _ _ _ (coeffBlocks μ) (coeffUnperturbedNH en)) z i j
+      = if isRem (μ.cls i j) then z i j / (en.E i - en.E j) else 0 := rfl
+
+/-- Hermitian case: real energies -/
+noncomputable def coeffUnperturbed (en : Energies μ K) :
+    @CoeffUnperturbed (Matrix ι ι K) _ _ _ _ (coeffBlocks μ) :=
+  letI := coeffBlocks (K := K) μ
+  { toCoeffUnperturbedNH := coeffUnperturbedNH en.toEnergiesNH
+    H0_star := by
+      show star (Matrix.diagonal en.E) = Matrix.diagonal en.E
+      ext i j
+      rw [Matrix.star_apply]
+      by_cases h : i = j
+      · subst h; rw [Matrix.diagonal_apply_eq, en.E_real]
+      · rw [Matrix.diagonal_apply_ne _ h, Matrix.diagonal_apply_ne _ (Ne.symm h), star_zero]
     Sy_ed_star := by
       intro z
       ext i j
@@ -208,15 +222,14 @@ noncomputable def coeffUnperturbed (en : Energies μ K) :
         have hr' : isRem (μ.cls j i) := Or.inr (Or.inr hji)
         have hne : en.E i - en.E j ≠ 0 := sub_ne_zero.mpr (en.gapE i j hr)
         have hne' : en.E j - en.E i ≠ 0 := sub_ne_zero.mpr (en.gapE j i hr')
-        rw [if_pos h, if_pos h, Matrix.star_apply]
-        simp only [Matrix.of_apply, if_pos hr, if_pos hr', Matrix.star_apply]
+        rw [if_pos h, if_pos h, Matrix.star_apply, Sy_apply, Sy_apply, if_pos hr', if_pos hr, Matrix.star_apply]
         rw [star_div₀, star_sub, en.E_real, en.E_real]
         field_simp
         ring
       · rw [if_neg h, if_neg h, neg_zero] }
 
 /-- coefficient-level gap: a matrix without kept entries that commutes with diag(E) vanishes -/
-theorem coeff_gap (en : Energies μ K) (x : Matrix ι ι K)
+theorem coeff_gap (en : EnergiesNH μ K) (x : Matrix ι ι K)
     (hs : maskMap μ kc x + maskMap μ kn x = 0) (hc : Matrix.diagonal en.E * x - x * Matrix.diagonal en.E = 0) : x = 0 := by
   ext i j
   rcases sel_rem (μ.cls i j) with h | h
